@@ -106,9 +106,36 @@ def _iter_source(ex, it: SV, st: State):
     raise Unsupported('iteration over %s/%s' % (it.kind, it.cls))
 
 
+def _desugar_filter(s: ast.For):
+    """`for x in filter(lambda v: P(v), L): body`  ==  `for x in L: if P(x): body`  (the lambda is applied to the loop target;
+    the iteration order and the elements are those of L)"""
+    it = s.iter
+    if not (isinstance(it, ast.Call) and isinstance(it.func, ast.Name) and it.func.id == 'filter' and len(it.args) == 2 and not it.keywords
+            and isinstance(it.args[0], ast.Lambda) and isinstance(s.target, ast.Name)):
+        return None
+    lam = it.args[0]
+    if len(lam.args.args) != 1 or lam.args.defaults or lam.args.kwonlyargs or lam.args.vararg or lam.args.kwarg:
+        return None
+    pname = lam.args.args[0].arg
+
+    class _R(ast.NodeTransformer):
+        def visit_Name(self, n):
+            return ast.copy_location(ast.Name(id=s.target.id, ctx=n.ctx), n) if n.id == pname else n
+    import copy as _copy
+    test = _R().visit(_copy.deepcopy(lam.body))
+    body = [ast.copy_location(ast.If(test=test, body=s.body, orelse=[]), s)]
+    new = ast.copy_location(ast.For(target=s.target, iter=it.args[1], body=body, orelse=[], type_comment=None), s)
+    return ast.fix_missing_locations(new)
+
+
 def exec_for(ex, s: ast.For, st: State) -> list[State]:
     if s.orelse:
         raise Unsupported('for/else')
+    ds = _desugar_filter(s)
+    if ds is not None:
+        ex.loop_ids[id(ds)] = ex.loop_ids[id(s)]
+        # (the body statements are shared objects: nested loops keep their ordinals)
+        s = ds
     ordinal = ex.loop_ids[id(s)]
     named_heap(st)
     if isinstance(s.iter, (ast.List, ast.Tuple)) and not any(isinstance(x, ast.Starred) for x in s.iter.elts):
